@@ -118,6 +118,7 @@ type FreeArgs struct {
 	Second  SigSpec
 	Bang    bool  // send the second message, then close without reading
 	NewIDs  []int // the roots the harness expects after the free (for rendering a "b" signature)
+	Between func() // runs after the host's first response has been read, before the renter answers
 }
 
 func (s *Sess) Free(a FreeArgs) Result {
@@ -145,6 +146,9 @@ func (s *Sess) Free(a FreeArgs) Result {
 		if distinctInRange(a.Indices, st.Revision.Filesize/proto4.SectorSize) && !proto4.VerifyFreeSectorsProof(resp.OldSubtreeHashes, resp.OldLeafHashes, a.Indices,
 			st.Revision.Filesize/proto4.SectorSize, st.Revision.FileMerkleRoot, resp.NewMerkleRoot) {
 			res.Notes = append(res.Notes, "free proof does not verify")
+		}
+		if a.Between != nil {
+			a.Between()
 		}
 		rev, _, err := proto4.ReviseForFreeSectors(st.Revision, prices, resp.NewMerkleRoot, len(a.Indices))
 		sp := a.Second
@@ -211,6 +215,7 @@ type AppendArgs struct {
 	Second  SigSpec
 	Bang    bool
 	NewIDs  []int
+	Between func()
 }
 
 func flags(b []bool) string {
@@ -251,6 +256,9 @@ func (s *Sess) Append(a AppendArgs) Result {
 		}
 		if !proto4.VerifyAppendSectorsProof(st.Revision.Filesize/proto4.SectorSize, resp.SubtreeRoots, appended, st.Revision.FileMerkleRoot, resp.NewMerkleRoot) {
 			res.Notes = append(res.Notes, "append proof does not verify")
+		}
+		if a.Between != nil {
+			a.Between()
 		}
 		rev, _, err := proto4.ReviseForAppendSectors(st.Revision, prices, resp.NewMerkleRoot, uint64(len(appended)))
 		sp := a.Second
